@@ -194,6 +194,17 @@ func (c13) Generate(r *core.Rng, run int, tier string) *core.History {
 		fld := core.Pick(r, []string{"k", "j"})
 		h.Events = append(h.Events, core.Event{Ev: "use", Tag: "sitefield", Text: "println(mfld({\"k\": 5, \"j\": 7}, " + fld + "))", Val: "println(({\"k\": 5, \"j\": 7})." + fld + ")"})
 	}
+	if r.Bool(.2) {
+		// an argument that is itself a quote(...) call is substituted as written (it stays quoted in the expanded program)
+		h.Events = append(h.Events, core.Event{Ev: "define", Name: "mq9", Args: []string{"qa", "qb"}, Val: "[unquote(qa), unquote(qb)]",
+			Text: "mq9 = macro(qa, qb) { quote([unquote(qa), unquote(qb)]) }"})
+		qarg := core.Pick(r, []string{"quote(gv1 + 1)", "quote(3)", "quote(f0(2))"})
+		if r.Bool(.5) {
+			h.Events = append(h.Events, core.Event{Ev: "use", Tag: "sitequote", Text: "println(mq9(" + qarg + ", gv1))", Val: "println([" + qarg + ", gv1])"})
+		} else {
+			h.Events = append(h.Events, core.Event{Ev: "use", Tag: "sitequote", Text: "println(mq9(gv1 + 1, " + qarg + "))", Val: "println([gv1 + 1, " + qarg + "])"})
+		}
+	}
 	nu := 1 + r.Intn(5)
 	for i := 0; i < nu; i++ {
 		if r.Bool(.2) {
@@ -324,7 +335,7 @@ func (c13) Execute(h *core.History) *core.Outcome {
 		if e.Ev == "use" {
 			// (after shrinking) a use whose macros or helpers are not all defined is not a macro use
 			ok := preluded
-			for _, name := range []string{"mc0", "mc1", "mc2", "mc3", "mfld"} {
+			for _, name := range []string{"mc0", "mc1", "mc2", "mc3", "mfld", "mq9"} {
 				if strings.Contains(e.Text, name+"(") && !defined[name] {
 					ok = false
 				}
